@@ -28,16 +28,18 @@ Inductive inst := ICache | IAsync.
     - [LStore i]  : [objectStore.RWMutex] of store [i]             (rank 1)
     - [LMap i]    : [objectMap.RWMutex] of the per-type maps below
                     store [i]                                      (rank 2)
+    - [LSchemas]  : [DB.sl], taken by DB.schema() around the lazy
+                    loading of schemas, innermost                  (rank 3)
     All instances of one class are identified (one model lock per class). *)
-Inductive lclass := LHandle | LStore (i : inst) | LMap (i : inst).
+Inductive lclass := LHandle | LStore (i : inst) | LMap (i : inst) | LSchemas.
 
 Inductive mode := R | W.
 
 Definition rank (c : lclass) : nat :=
-  match c with LHandle => 0 | LStore _ => 1 | LMap _ => 2 end.
+  match c with LHandle => 0 | LStore _ => 1 | LMap _ => 2 | LSchemas => 3 end.
 
 (** Strict upper bound of all ranks. *)
-Definition max_rank : nat := 3.
+Definition max_rank : nat := 4.
 
 Definition inst_eq_dec : forall a b : inst, {a = b} + {a <> b}.
 Proof. decide equality. Defined.
@@ -545,7 +547,7 @@ Definition lock_order_ok (p : program) : bool := check_program p order_guard.
     holding [c] in either mode). A rule: one DNF for reads, one for writes. *)
 Definition req := list (lclass * mode).
 Record rule := { rd : list req; wr : list req }.
-(** A policy is a finite table; unlisted location classes admit no shared access. *)
+(** A policy is a finite table; unlisted location classes allow no shared access. *)
 Definition policy := list (loc * rule).
 
 Definition holds_b (h : held) (x : lclass * mode) : bool :=
